@@ -844,4 +844,6 @@ _inst_before_initdtype = instances
 
 
 def instances(tier):       # noqa: F811
-    return _inst_before_initdtype(tier) + [init_dtype_bounded_instance()]
+    # the E-step of the integration models with the inline aligner on (a link of their alternation): per bin, independent of the others
+    from .c14 import integration_pa_bounded_instance
+    return _inst_before_initdtype(tier) + [init_dtype_bounded_instance(), integration_pa_bounded_instance('C08')]
